@@ -9,6 +9,7 @@ Definition gen_cfg : cfg := {|
   c_arr_int := unify_array_accepts_int;
   c_ins_changed := set_insert_marks_changed;
   c_set_raises := set_reraises;
+  c_loops_prepass := loop_variables_prepass;
   c_is_state := is_state_variable state_exact state_prefixes;
   c_init_global := init_global_names
 |}.
